@@ -108,6 +108,7 @@ def r1_effects(program, rep):
     ovp = ("param", "sv_overrides")
     upd = calls_in(boot, "update_default_values")
     got = False
+    results = []
     why = "no update_default_values(**options) call"
     for c in upd:
         for k in c.keywords:
@@ -115,6 +116,8 @@ def r1_effects(program, rep):
                 continue
             node = T.cfg.node_containing(c)
             X = T.term(k.value, node)
+            if any(results):
+                continue        # (one call applying both is what is needed)
             got = True
             if X[0] == "mu":
                 cands = [(T._bind_term(T.binds[i]), T.binds[i].node)
@@ -136,9 +139,13 @@ def r1_effects(program, rep):
                     has_ov = True        # nothing to apply on this path
                 if not (has_kw and has_ov):
                     got = False
-                    why = "on some path the options are %s, which leaves " \
-                        "out %s" % (show(alt)[:60], "the keyword options"
-                                    if not has_kw else "sv_overrides")
+                    if not results:
+                        why = "on some path the options are %s, which " \
+                            "leaves out %s" % (
+                                show(alt)[:60], "the keyword options"
+                                if not has_kw else "sv_overrides")
+            results.append(got)
+    got = any(results)
     rep.check(got, "C20-R1", qual(boot), "both sv_overrides and the keyword "
               "options are applied to the system-variable defaults on every "
               "path", construct="options applied", node=boot,
@@ -179,6 +186,13 @@ def r2_sequence(program, folder, rep):
         return v
     bp = program.get(MOD + ":boot_packet")
     sends = calls_in(fn, "boot_packet")
+    if not sends:
+        others = [f_ for q_, f_ in program.functions(MOD)
+                  if f_ is not fn and calls_in(f_, "boot_packet")]
+        if others:
+            raise AnalysisError("boot: the datagrams are no longer sent by "
+                                "boot() itself but through other functions; "
+                                "the sequence is not analysed in that form")
     by_cmd = {}
     for c in sends:
         b = bind(c, bp)
@@ -265,6 +279,36 @@ def r2_sequence(program, folder, rep):
                     len(pc[2]) == 1:
                 IMG = cand
     ok = IMG is not None and chunked(piece, IMG, B, tconst)
+    by_number = None
+    if not ok and IMG is not None and piece[0] == "item" and \
+            piece[1] == IMG and piece[2][0] == "slice" and \
+            piece[2][3] == ("const", None):
+        # image[k * size : k * size + size] for the block number k over
+        # range(<the number of blocks announced>)
+        lo_, hi_ = piece[2][1], piece[2][2]
+        if lo_[0] == "binop" and lo_[1] == "Mult":
+            for k_, c_ in ((lo_[2], lo_[3]), (lo_[3], lo_[2])):
+                m_ = match(("elem", ("call", ("global", "range"),
+                                     (V("n"),), ())), k_)
+                if m_ is None or tconst(c_) != B:
+                    continue
+                if not (hi_[0] == "binop" and hi_[1] == "Add" and
+                        lo_ in (hi_[2], hi_[3]) and tconst(
+                            hi_[3] if hi_[2] == lo_ else hi_[2]) == B):
+                    continue
+                def sym_t_(t_):
+                    e_ = reify(plain(t_))
+                    for x_ in ast.walk(e_):
+                        for y_ in ast.iter_child_nodes(x_):
+                            y_._parent = x_
+                    ast.fix_missing_locations(e_)
+                    return fl.sym(e_, n_start)
+                if sym_t_(m_["n"]) != sym_t_(T.term(
+                        arg3, T.cfg.node_containing(c_start))) + 1:
+                    raise AnalysisError("boot: the blocks are cut by block "
+                                        "number over a count that is not "
+                                        "the announced one; not analysed")
+                ok, by_number = True, k_
     rep.check(ok, "C20-R2", inst, "the blocks sent are the consecutive "
               "%d-byte pieces of the image, in order (same constant as the "
               "announced count uses)" % B, construct="block slicing",
@@ -316,7 +360,9 @@ def r2_sequence(program, folder, rep):
             if low and unparse(reify(plain(st_))) == low[0].src:
                 num = st_
         okn = False
-        if num is not None and num[0] == "index":
+        if num is not None and by_number is not None:
+            okn = num == by_number
+        elif num is not None and num[0] == "index":
             # the running index of the pieces themselves
             from ..terms import chunk_offsets
             if chunk_index(plain(num), B, tconst) is None:
@@ -425,6 +471,10 @@ def r3_splice(program, folder, rep):
         return f_[1] if f_[0] == "const" else None
     lo, hi = tconst_(t.slice.lower), tconst_(t.slice.upper)
     v = sp.value
+    if isinstance(v, ast.Name):
+        # the bytes spliced in, kept in a temporary
+        from ..util import resolve_tmp
+        v = resolve_tmp(fl, v, cfg.node_of(sp))
     ok = False
     rhs_len = None
     if isinstance(v, ast.Subscript) and isinstance(v.slice, ast.Slice) and \
